@@ -32,22 +32,31 @@ FIRST = {   # outcome of the FIRST run of the checks as they stood when the chan
  'c17-ref-span-qualified': 'caught by C17.R2 as built', 'c17-refs-nested-import': 'missed; C17.R1 now rejects a subset of ModuleSet::modules() -> caught',
  'c18-builtin-refs': 'caught by C18.R2 as built', 'c18-qualifier-scope': 'missed; new rule C18.R4 QUALIFIER-LOCAL -> caught',
 }
+STAGE = os.environ.get('STAGE', '/root/seeded-staging')
+VERIFIED = os.environ.get('VERIFIED', '/root/seeded-verified')
+PREFIX = os.environ.get('IDPREFIX', '')
+WTPREFIX = os.environ.get('WTPREFIX', '/tmp/wt-')
+if os.environ.get('FIRSTFILE'):
+    FIRST = json.load(open(os.environ['FIRSTFILE']))
+
+
 def keys(src):
     r = subprocess.run([os.path.join(HERE, 'check'), 'all', '--keys-only'] + (['--src', src] if src else []), capture_output=True, text=True)
     return json.loads(r.stdout.strip().splitlines()[-1])
 base = keys(None)
 extra_path = os.path.join(HERE, 'mutants', 'catalogue_extra.json')
-extra = [e for e in json.load(open(extra_path)) if e.get('origin') != 'sub-agent seeded change']
-for vf in sorted(glob.glob('/root/seeded-verified/*/*/verify.json')):
+ORIGIN = 'sub-agent seeded change' + (' (round 2)' if PREFIX else '')
+extra = [e for e in json.load(open(extra_path)) if e.get('origin') != ORIGIN]
+for vf in sorted(glob.glob(VERIFIED + '/*/*/verify.json')):
     v = json.load(open(vf))
     g, m = v['group'], v['name']
-    sid = '%s-%s' % (g, m)
+    sid = '%s%s-%s' % (PREFIX, g, m)
     if not v['confirmed']:
         print('SKIP (not confirmed)', sid); continue
-    src = '/root/seeded-staging/%s/%s' % (g, m)
+    src = '%s/%s/%s' % (STAGE, g, m)
     dst = os.path.join(HERE, 'seeded', sid)
     shutil.rmtree(dst, ignore_errors=True)
-    shutil.copytree(src, dst, ignore=shutil.ignore_patterns('out.*', '*.yaml.bak', 'target'))
+    shutil.copytree(src, dst, ignore=shutil.ignore_patterns('out.*', '*.yaml.bak', 'target', '*.log', 'demo_override.txt'))
     am = json.load(open(os.path.join(src, 'meta.json')))
     if os.path.exists(os.path.join(dst, 'meta.json')):
         os.rename(os.path.join(dst, 'meta.json'), os.path.join(dst, 'agent_meta.json'))
@@ -67,7 +76,7 @@ for vf in sorted(glob.glob('/root/seeded-verified/*/*/verify.json')):
         'needs_to_manifest': am.get('needs_to_manifest'),
         'origin': 'fresh sub-agent given only the property text and its own worktree of /repo',
         'what_i_ran': {
-            'worktree': '/tmp/wt-%s (scratch git worktree of /repo HEAD, removed afterwards)' % g,
+            'worktree': '%s%s (scratch git worktree of /repo HEAD, removed afterwards)' % (WTPREFIX, g),
             'steps': ['git apply patch.diff', 'cargo build --workspace --offline', 'cargo test --workspace --no-fail-fast --offline',
                       v['demo_cmd'] + '   (with the change)', 'git checkout -- .', v['demo_cmd'] + '   (without the change)'],
             'tests_with_change': v['tests_with_change'],
@@ -81,6 +90,6 @@ for vf in sorted(glob.glob('/root/seeded-verified/*/*/verify.json')):
     }
     json.dump(meta, open(os.path.join(dst, 'meta.json'), 'w'), indent=1)
     extra.append({'id': 'seeded-' + sid, 'kind': 'mutant', 'properties': sorted(new), 'what': (am.get('summary') or '')[:200],
-                  'patch': 'seeded/%s/patch.diff' % sid, 'origin': 'sub-agent seeded change'})
+                  'patch': 'seeded/%s/patch.diff' % sid, 'origin': ORIGIN})
     print(sid, 'detected_by', sorted(new))
 json.dump(extra, open(extra_path, 'w'), indent=1)
